@@ -150,8 +150,27 @@ Proof.
   f_equal. lia.
 Qed.
 
-Lemma py_int_digits p : digit_str p = true -> py_int p = Ok (dec_val 0 p).
+Lemma py_int_digits p : digit_str p = true -> py_int p = if short_str p then Ok (dec_val 0 p) else Raise ValueError.
 Proof. intros H. unfold py_int. now rewrite H. Qed.
+Lemma py_int_short p : digit_str p = true -> short_str p = true -> py_int p = Ok (dec_val 0 p).
+Proof. intros H L. now rewrite py_int_digits, L. Qed.
+Lemma short_1 (c : Z) : short_str [c] = true.
+Proof. reflexivity. Qed.
+
+(* the canonical decimal string of z has at most 1 + log2 z digits *)
+Lemma digits_lsb_length fuel : forall z, (length (digits_lsb fuel z) <= fuel)%nat.
+Proof.
+  induction fuel as [|f IH]; intros z; cbn [digits_lsb length]; [lia|].
+  destruct (z <? 10); cbn [length]; [lia|]. specialize (IH (z / 10)). lia.
+Qed.
+Lemma dec_short z : 0 <= z < 2 ^ 48 -> short_str (dec z) = true.
+Proof.
+  intros Hz. unfold short_str, int_max_str_digits, dec, len. rewrite map_length, rev_length.
+  pose proof (digits_lsb_length (S (Z.to_nat (Z.log2 z))) z) as H.
+  assert (Z.log2 z < 48).
+  { destruct (Z.eq_dec z 0) as [->|N]; [reflexivity|]. apply Z.log2_lt_pow2; lia. }
+  pose proof (Z.log2_nonneg z). lia.
+Qed.
 
 Lemma dec_val_nonneg p : forall acc, 0 <= acc -> forallb is_digit p = true -> 0 <= dec_val acc p.
 Proof.
@@ -171,21 +190,30 @@ Proof. apply (slice_app_r [a; b; c] l). Qed.
 
 Definition sub_ok (x : Z) : bool := (0 <=? x) && (x <? 2 ^ 32).
 
+(* a sub-authority part int() accepts and the range test lets through *)
+Definition sub_part_ok (p : pystr) : bool := short_str p && (dec_val 0 p <? 2 ^ 32).
+Lemma sub_parts_ok l : forallb sub_part_ok l = forallb short_str l && forallb (fun p => dec_val 0 p <? 2 ^ 32) l.
+Proof.
+  induction l as [|p l IH]; [reflexivity|]. cbn [forallb]. rewrite IH. unfold sub_part_ok.
+  destruct (short_str p), (dec_val 0 p <? 2 ^ 32), (forallb short_str l); reflexivity.
+Qed.
+
 Lemma parse_subs_spec (subs : list pystr) : forallb digit_str subs = true ->
-  parse_subs subs = if forallb (fun p => dec_val 0 p <? 2 ^ 32) subs then Ok (map (dec_val 0) subs) else Raise ValueError.
+  parse_subs subs = if forallb sub_part_ok subs then Ok (map (dec_val 0) subs) else Raise ValueError.
 Proof.
   induction subs as [|p subs IH]; intros H; [reflexivity|].
   cbn [forallb] in H. apply andb_true_iff in H as [Hp Hs]. cbn [parse_subs forallb map].
-  rewrite (py_int_digits p Hp). cbn [bind]. rewrite sub_range_test.
+  rewrite (py_int_digits p Hp). unfold sub_part_ok at 1.
+  destruct (short_str p); cbn [bind andb]; [|reflexivity]. rewrite sub_range_test.
   destruct (dec_val 0 p <? 2 ^ 32); cbn [negb andb]; [|reflexivity].
-  rewrite (IH Hs). destruct (forallb (fun p => dec_val 0 p <? 2 ^ 32) subs); reflexivity.
+  rewrite (IH Hs). destruct (forallb sub_part_ok subs); reflexivity.
 Qed.
 
 Lemma sid_parse_parts (str : pystr) (r : Z) (a : pystr) (subs : list pystr) :
   split_on 45 str = [83] :: [r] :: a :: subs ->
   is_digit r = true -> digit_str a = true -> (1 <= length subs <= 15)%nat -> forallb digit_str subs = true ->
   sid_parse str =
-    if (dec_val 0 a <? 2 ^ 48) && forallb (fun p => dec_val 0 p <? 2 ^ 32) subs
+    if short_str a && (dec_val 0 a <? 2 ^ 48) && forallb sub_part_ok subs
     then Ok {| sid_rev := r - 48; sid_auth := dec_val 0 a; sid_subs := map (dec_val 0) subs |}
     else Raise ValueError.
 Proof.
@@ -197,10 +225,11 @@ Proof.
   change (split_on (sep_char k_sid_split_sep) str) with (split_on 45 str). rewrite Hs.
   rewrite index_1, index_2. cbn [bind].
   assert (Hr1 : digit_str [r] = true) by (cbn [digit_str forallb]; now rewrite Hr).
-  rewrite (py_int_digits [r] Hr1), (py_int_digits a Ha). cbn [bind].
+  rewrite (py_int_short [r] Hr1 (short_1 r)), (py_int_digits a Ha). cbn [bind].
+  destruct (short_str a); cbn [bind andb]; [|reflexivity].
   rewrite auth_range_test. change k_sid_first_sub with 3. rewrite slice_3.
   destruct (dec_val 0 a <? 2 ^ 48); cbn [negb andb]; [|reflexivity].
-  rewrite (parse_subs_spec subs Hd). destruct (forallb (fun p => dec_val 0 p <? 2 ^ 32) subs); cbn [bind]; [|reflexivity].
+  rewrite (parse_subs_spec subs Hd). destruct (forallb sub_part_ok subs); cbn [bind]; [|reflexivity].
   cbn [dec_val]. do 2 f_equal.
 Qed.
 
@@ -220,12 +249,16 @@ Lemma sid_parse_accepts str s : sid_parse str = Ok s ->
     str = [83; 45; r; 45] ++ a ++ concat (map (cons 45) subs) /\
     is_digit r = true /\ digit_str a = true /\ (1 <= length subs <= 15)%nat /\ forallb digit_str subs = true /\
     sid_rev s = r - 48 /\ sid_auth s = dec_val 0 a /\ sid_subs s = map (dec_val 0) subs /\
-    dec_val 0 a < 2 ^ 48 /\ forallb (fun p => dec_val 0 p <? 2 ^ 32) subs = true.
+    dec_val 0 a < 2 ^ 48 /\ forallb (fun p => dec_val 0 p <? 2 ^ 32) subs = true /\
+    short_str a = true /\ forallb short_str subs = true.
 Proof.
   intros H. destruct (sid_match str) eqn:Hm.
   - destruct (sid_match_parts str Hm) as (r & a & subs & Hs & Hr & Ha & Hn & Hd).
-    rewrite (sid_parse_parts str r a subs Hs Hr Ha Hn Hd) in H.
-    destruct (dec_val 0 a <? 2 ^ 48) eqn:E1; [|discriminate]. destruct (forallb _ subs) eqn:E2; [|discriminate].
+    rewrite (sid_parse_parts str r a subs Hs Hr Ha Hn Hd), sub_parts_ok in H.
+    destruct (short_str a) eqn:E0; [|discriminate].
+    destruct (dec_val 0 a <? 2 ^ 48) eqn:E1; [|discriminate].
+    destruct (forallb short_str subs) eqn:E3; [|discriminate].
+    destruct (forallb (fun p => dec_val 0 p <? 2 ^ 32) subs) eqn:E2; [|discriminate].
     cbn [andb] in H. apply Ok_inj in H. subst s. exists r, a, subs. cbn [sid_rev sid_auth sid_subs].
     repeat split; auto; try lia. rewrite <- (join_split 45 str), Hs. reflexivity.
   - unfold sid_parse in H. rewrite Hm in H. discriminate.
@@ -233,7 +266,7 @@ Qed.
 
 Lemma sid_parse_wf str s : sid_parse str = Ok s -> wf_sid s = true.
 Proof.
-  intros H. destruct (sid_parse_accepts str s H) as (r & a & subs & _ & Hr & Ha & Hn & Hd & E1 & E2 & E3 & Hlt & Hsub).
+  intros H. destruct (sid_parse_accepts str s H) as (r & a & subs & _ & Hr & Ha & Hn & Hd & E1 & E2 & E3 & Hlt & Hsub & _).
   unfold wf_sid. rewrite E1, E2, E3. unfold len. rewrite map_length.
   pose proof (dec_val_digit_str_nonneg a Ha) as Ha0.
   assert (forallb (fun x => (0 <=? x) && (x <? 2 ^ 32)) (map (dec_val 0) subs) = true) as ->.
@@ -242,16 +275,30 @@ Proof.
   unfold is_digit in Hr. lia.
 Qed.
 
-(* completeness: every string of the grammar whose numbers are in range is accepted (leading zeros included) *)
+(* completeness: every string of the grammar whose numbers are in range and whose numeric parts have at most 4300 digits
+   (CPython's int() limit, leading zeros counted) is accepted (leading zeros included) *)
 Lemma sid_parse_complete (r : Z) (a : pystr) (subs : list pystr) :
   is_digit r = true -> digit_str a = true -> (1 <= length subs <= 15)%nat -> forallb digit_str subs = true ->
   dec_val 0 a < 2 ^ 48 -> forallb (fun p => dec_val 0 p <? 2 ^ 32) subs = true ->
+  short_str a = true -> forallb short_str subs = true ->
   sid_parse ([83; 45; r; 45] ++ a ++ concat (map (cons 45) subs)) =
     Ok {| sid_rev := r - 48; sid_auth := dec_val 0 a; sid_subs := map (dec_val 0) subs |}.
 Proof.
-  intros Hr Ha Hn Hd Hlt Hsub.
+  intros Hr Ha Hn Hd Hlt Hsub La Ls.
   rewrite (sid_parse_parts _ r a subs (grammar_split r a subs Hr Ha Hd) Hr Ha Hn Hd).
-  rewrite Hsub. destruct (dec_val 0 a <? 2 ^ 48) eqn:E; [reflexivity|lia].
+  rewrite sub_parts_ok, Hsub, La, Ls. destruct (dec_val 0 a <? 2 ^ 48) eqn:E; [reflexivity|lia].
+Qed.
+
+(* and a string of the grammar with a numeric part of more than 4300 digits is refused, whatever its value *)
+Lemma sid_parse_too_long (r : Z) (a : pystr) (subs : list pystr) :
+  is_digit r = true -> digit_str a = true -> (1 <= length subs <= 15)%nat -> forallb digit_str subs = true ->
+  short_str a && forallb short_str subs = false ->
+  sid_parse ([83; 45; r; 45] ++ a ++ concat (map (cons 45) subs)) = Raise ValueError.
+Proof.
+  intros Hr Ha Hn Hd L.
+  rewrite (sid_parse_parts _ r a subs (grammar_split r a subs Hr Ha Hd) Hr Ha Hn Hd), sub_parts_ok.
+  destruct (short_str a); cbn [andb] in *; [|reflexivity]. rewrite L.
+  destruct (dec_val 0 a <? 2 ^ 48); reflexivity.
 Qed.
 
 (* ---- print then parse ------------------------------------------------------------------------------------ *)
@@ -282,4 +329,7 @@ Proof.
   - rewrite dec_val_dec; lia.
   - apply forallb_forall. intros p Hp. apply in_map_iff in Hp as (x & <- & Hx). specialize (Hall x Hx).
     rewrite dec_val_dec; lia.
+  - apply dec_short. lia.
+  - apply forallb_forall. intros p Hp. apply in_map_iff in Hp as (x & <- & Hx). specialize (Hall x Hx).
+    apply dec_short. change (2 ^ 48) with 281474976710656. change (2 ^ 32) with 4294967296 in Hall. lia.
 Qed.
